@@ -1,1 +1,244 @@
-/-! # C18 — property theorems (stub) -/
+import Okane.Model.ImportCamt
+import Okane.Lemmas.ImportTxn
+/-!
+# C18 — Camt053 import conserves the statement
+
+Model: `Okane.Import.camtStatement` / `camtImport` (`Model/ImportCamt.lean`, mirror of `cli/src/import/iso_camt053.rs`
+after XML decoding) on top of `Txn` / `toDoubleEntry`, composed with the book-keeping model `process`.
+All theorems hold for every regex engine `cap` and every rule list.
+-/
+namespace Okane.Import
+open Okane
+
+/-! ## shape -/
+
+/-- `add_charges` only touches the charge list and the transferred amount. -/
+theorem addCharges_preserves (op : Option String) : ∀ (chs : List ChargeRecord) (t t' : Txn),
+    addCharges op t chs = .ok t' →
+    t'.date = t.date ∧ t'.effectiveDate = t.effectiveDate ∧ t'.amount = t.amount ∧ t'.code = t.code ∧
+    t'.balance = t.balance ∧ t'.payee = t.payee ∧ t'.destAccount = t.destAccount ∧ t'.rates = t.rates := by
+  intro chs
+  induction chs with
+  | nil => intro t t' h; simp [addCharges] at h; subst h; simp
+  | cons cr rest ih =>
+    intro t t' h
+    unfold addCharges at h
+    split at h
+    · exact ih t t' h
+    · split at h
+      · simp at h
+      · split at h
+        · split at h <;> try (simp at h; done)
+          rename_i t1 h1
+          have := ih t1 t' h
+          unfold Txn.tryAddChargeNotIncluded at h1
+          split at h1 <;> try (simp at h1; done)
+          split at h1 <;> try (simp at h1; done)
+          simp at h1
+          subst h1
+          simpa [Txn.setTransferredAmount] using this
+        · have := ih _ t' h
+          simpa [Txn.addCharge] using this
+
+/-- the effective date `Txn::effective_date` leaves: the booking date when it differs from the value date -/
+def effectiveOf (e : CamtEntry) : Option Date :=
+  if e.guessValueDate ≠ e.bookingDate then some e.bookingDate else none
+
+/-- **C18_shape (opening).**  When the statement has an opening balance and at least one entry, the output starts
+with the opening-balance transaction: amount zero in the balance's commodity, asserting the opening balance
+(credit +, debit −), against `Equity:Adjustments`, dated like the first entry of the file. -/
+theorem C18_shape_opening (st : Statement) (b : CamtBalance) (first : CamtEntry) (rest : List CamtEntry)
+    (hb : st.balances.find? (fun b => b.code == .opening) = some b) (he : st.entries = first :: rest) :
+    ∃ t, openingTxn st = [t] ∧ t.payee = "Initial Balance" ∧ t.date = first.guessValueDate ∧
+      t.amount = ⟨⟨false, 0, 0⟩, b.amount.currency⟩ ∧ t.balance = some (b.amount.toData b.cd) ∧
+      t.destAccount = some "Equity:Adjustments" ∧ t.charges = [] ∧ t.transferredAmount = none ∧ t.rates = [] := by
+  refine ⟨_, ?_, ?_⟩
+  · unfold openingTxn findBalance
+    rw [hb, he]
+    rfl
+  · simp [Txn.setBalance, Txn.setDestAccount, Txn.new, CamtAmount.toData]
+
+/-- **C18_shape (entry without details).**  One transaction: dated by the value date (booking date when there is
+none), the booking date as effective date when different, the account moved by `+amount` for a credit and by
+`−amount` for a debit. -/
+theorem C18_shape_entry (cap : Captures) (cfg : CamtCfg) (e : CamtEntry) (t : Txn) (h : entryTxn cap cfg e = .ok t) :
+    t.date = e.guessValueDate ∧ t.effectiveDate = effectiveOf e ∧ t.code = none ∧ t.balance = none ∧
+    t.amount.commodity = e.amount.currency ∧
+    (e.cd = .credit → t.amount.value = e.amount.value) ∧ (e.cd = .debit → t.amount.value = e.amount.value.negate) := by
+  unfold entryTxn at h
+  obtain ⟨h1, h2, h3, h4, h5, _⟩ := addCharges_preserves _ _ _ _ h
+  rw [h1, h2, h3, h4, h5]
+  refine ⟨?_, ?_, ?_, ?_, ?_, ?_, ?_⟩
+  all_goals (try split)
+  all_goals simp [Txn.new, Txn.setEffectiveDate, Txn.destAccountOption, Txn.setClearState, effectiveOf, CamtAmount.toData]
+  all_goals (try split)
+  all_goals (try simp_all)
+  all_goals (try (intro hcd; simp [hcd]))
+
+/-- **C18_shape (detail of a batched entry).**  One transaction per detail: dated like the entry, the detail's
+reference as code, the account moved by the detail's amount with the detail's own credit/debit indicator. -/
+theorem C18_shape_detail (cap : Captures) (cfg : CamtCfg) (e : CamtEntry) (d : TxDetails) (t : Txn)
+    (h : detailTxn cap cfg e d = .ok t) :
+    t.date = e.guessValueDate ∧ t.effectiveDate = effectiveOf e ∧ t.code = d.ref ∧ t.balance = none ∧
+    t.amount.commodity = d.amount.currency ∧
+    (d.cd = .credit → t.amount.value = d.amount.value) ∧ (d.cd = .debit → t.amount.value = d.amount.value.negate) := by
+  unfold detailTxn at h
+  simp only at h
+  split at h <;> try (simp at h; done)
+  rename_i t0 h0
+  split at h <;> try (simp at h; done)
+  rename_i t2 h2
+  obtain ⟨a1, a2, a3, a4, a5, _⟩ := addCharges_preserves _ _ _ _ h
+  obtain ⟨b1, b2, b3, b4, b5, _⟩ := addCharges_preserves _ _ _ _ h2
+  rw [a1, a2, a3, a4, a5, b1, b2, b3, b4, b5]
+  -- `t0`: after the amount details
+  have ht0 : t0.date = e.guessValueDate ∧ t0.effectiveDate = effectiveOf e ∧ t0.code = d.ref ∧ t0.balance = none ∧
+      t0.amount = d.amount.toData d.cd := by
+    split at h0
+    · simp at h0; subst h0
+      refine ⟨?_, ?_, ?_, ?_, ?_⟩ <;> (try split) <;>
+        simp [Txn.new, Txn.setEffectiveDate, Txn.destAccountOption, Txn.setClearState, Txn.codeOption, effectiveOf] <;>
+        (try split) <;> simp_all
+    · split at h0
+      · split at h0 <;> try (simp at h0; done)
+        rename_i t1 h1
+        simp at h0; subst h0
+        have hr : t1.date = e.guessValueDate ∧ t1.effectiveDate = effectiveOf e ∧ t1.code = d.ref ∧ t1.balance = none ∧
+            t1.amount = d.amount.toData d.cd := by
+          split at h1
+          · unfold Txn.addRate at h1
+            split at h1 <;> try (simp at h1; done)
+            simp only at h1
+            split at h1
+            · split at h1 <;> try (simp at h1; done)
+              simp at h1; subst h1
+              refine ⟨?_, ?_, ?_, ?_, ?_⟩ <;> (try split) <;>
+                simp [Txn.new, Txn.setEffectiveDate, Txn.destAccountOption, Txn.setClearState, Txn.codeOption, effectiveOf] <;>
+                (try split) <;> simp_all
+            · simp at h1; subst h1
+              refine ⟨?_, ?_, ?_, ?_, ?_⟩ <;> (try split) <;>
+                simp [Txn.new, Txn.setEffectiveDate, Txn.destAccountOption, Txn.setClearState, Txn.codeOption, effectiveOf] <;>
+                (try split) <;> simp_all
+          · simp at h1; subst h1
+            refine ⟨?_, ?_, ?_, ?_, ?_⟩ <;> (try split) <;>
+              simp [Txn.new, Txn.setEffectiveDate, Txn.destAccountOption, Txn.setClearState, Txn.codeOption, effectiveOf] <;>
+              (try split) <;> simp_all
+        simpa [Txn.setTransferredAmount] using hr
+      · simp at h0; subst h0
+        refine ⟨?_, ?_, ?_, ?_, ?_⟩ <;> (try split) <;>
+          simp [Txn.new, Txn.setEffectiveDate, Txn.destAccountOption, Txn.setClearState, Txn.codeOption, effectiveOf] <;>
+          (try split) <;> simp_all
+  obtain ⟨c1, c2, c3, c4, c5⟩ := ht0
+  rw [c1, c2, c3, c4, c5]
+  refine ⟨rfl, rfl, rfl, rfl, rfl, ?_, ?_⟩ <;> intro hcd <;> simp [CamtAmount.toData, hcd]
+
+/-- number of transactions an entry yields: itself, or one per detail -/
+def entryCount (e : CamtEntry) : Nat := if e.details.isEmpty then 1 else e.details.length
+
+theorem detailTxns_length (cap : Captures) (cfg : CamtCfg) (e : CamtEntry) :
+    ∀ (ds : List TxDetails) (ts : List Txn), detailTxns cap cfg e ds = .ok ts → ts.length = ds.length := by
+  intro ds
+  induction ds with
+  | nil => intro ts h; simp [detailTxns] at h; subst h; rfl
+  | cons d rest ih =>
+    intro ts h
+    unfold detailTxns at h
+    split at h <;> try (simp at h; done)
+    split at h <;> try (simp at h; done)
+    rename_i ts' h'
+    simp at h; subst h
+    simp [ih ts' h']
+
+/-- **C18_shape (count and order).**  The entries are taken in file order for `old_to_new`, in reverse file order
+for `new_to_old`, and yield one transaction each, or one per detail for a batched entry. -/
+theorem C18_shape_count (cap : Captures) (cfg : CamtCfg) :
+    ∀ (es : List CamtEntry) (ts : List Txn), entriesTxns cap cfg es = .ok ts →
+      ts.length = (es.map entryCount).sum := by
+  intro es
+  induction es with
+  | nil => intro ts h; simp [entriesTxns] at h; subst h; rfl
+  | cons e rest ih =>
+    intro ts h
+    unfold entriesTxns at h
+    split at h <;> try (simp at h; done)
+    rename_i ts1 h1
+    split at h <;> try (simp at h; done)
+    rename_i ts2 h2
+    simp at h; subst h
+    have hlen : ts1.length = entryCount e := by
+      unfold entryTxns at h1
+      unfold entryCount
+      split at h1
+      · rename_i hemp
+        simp only [hemp, if_true]
+        cases he : entryTxn cap cfg e <;> simp [he, Outcome.map'] at h1
+        subst h1; rfl
+      · rename_i hemp
+        simp only [hemp]
+        exact detailTxns_length cap cfg e _ _ h1
+    simp [hlen, ih ts2 h2]
+
+theorem setLastBalance_getLast (res : List Txn) (b : OwnedAmount) (hne : res ≠ []) :
+    ∃ last, (setLastBalance res (some b)).getLast? = some last ∧ last.balance = some b ∧
+      (setLastBalance res (some b)).length = res.length := by
+  unfold setLastBalance
+  cases hl : res.getLast? with
+  | none => simp [List.getLast?_eq_none_iff] at hl; exact absurd hl hne
+  | some last =>
+    refine ⟨last.setBalance b, by simp, rfl, ?_⟩
+    have : res.length ≥ 1 := by cases res <;> simp_all
+    simp; omega
+
+/-- **C18_shape (closing).**  The output of a statement is the opening transaction (if any) followed by the entries'
+transactions; the closing balance (credit +, debit −) is asserted on the last transaction of the output. -/
+theorem C18_shape_closing (cap : Captures) (cfg : CamtCfg) (st : Statement) (txns : List Txn)
+    (h : camtStatement cap cfg st = .ok txns) :
+    ∃ ts, entriesTxns cap cfg (orderedEntries cfg st) = .ok ts ∧
+      txns = setLastBalance (openingTxn st ++ ts) (findBalance st .closing) ∧
+      txns.length = (openingTxn st).length + ((orderedEntries cfg st).map entryCount).sum ∧
+      (∀ b, findBalance st .closing = some b → openingTxn st ++ ts ≠ [] →
+        ∃ last, txns.getLast? = some last ∧ last.balance = some b) := by
+  unfold camtStatement camtStatementOnto at h
+  split at h <;> try (simp at h; done)
+  rename_i ts hts
+  simp at h
+  refine ⟨ts, rfl, h.symm, ?_, ?_⟩
+  · rw [← h]
+    have hc := C18_shape_count cap cfg _ _ hts
+    unfold setLastBalance
+    split
+    · rename_i b last _ hl
+      have : (openingTxn st ++ ts).length ≥ 1 := by
+        cases hh : openingTxn st ++ ts <;> simp_all
+      simp [List.length_append] at this ⊢
+      omega
+    · simp [hc]
+  · intro b hb hne
+    rw [← h, hb]
+    obtain ⟨last, h1, h2, _⟩ := setLastBalance_getLast _ b hne
+    exact ⟨last, h1, h2⟩
+
+/-! ## acceptance -/
+
+/-- **ConsistentStatement**, stated on what the importer makes of the statement: all of it is in one currency `c`
+without exchange rates; every transaction's figures are consistent — the amount, its charges and the counter amount
+(the amount details' transaction amount when charges are included, `amount + charge` for a charge that is not)
+cancel, which for a batched entry is the condition that each detail is booked with its own amount; counter-postings go
+to other accounts; and the opening balance plus credits minus debits runs through every asserted balance up to the
+closing balance. -/
+def ConsistentStatement (acct c : String) (opening closing : Dec) (txns : List Txn) : Prop :=
+  RunOK acct c opening.toRat txns ∧ runX opening.toRat txns = closing.toRat
+
+/-- **C18_accepts.**  Given that the account held the opening balance beforehand, the ledger imported from a
+consistent statement is accepted by the book-keeping model and the account ends at the closing balance. -/
+theorem C18_accepts (cap : Captures) (cfg : CamtCfg) (st : Statement) (txns : List Txn) (c : String) (date : Date)
+    (opening closing : Dec) (_himp : camtStatement cap cfg st = .ok txns)
+    (hc : c ≠ "") (hne : "Equity:Opening" ≠ cfg.account)
+    (hcons : ConsistentStatement cfg.account c opening closing txns) :
+    ∃ trs stt, ledgerOf cfg.account txns = .ok trs ∧
+      process (Entry.txn (fundTxn cfg.account date opening c) :: trs.map Entry.txn) = .ok stt ∧
+      Amount.getPart (Balance.get stt.bal cfg.account) c = closing.toRat := by
+  obtain ⟨trs, stt, hl, hp, hv⟩ := run_accepts cfg.account c hc hne date opening txns hcons.1
+  exact ⟨trs, stt, hl, hp, by rw [hv, hcons.2]⟩
+
+end Okane.Import
